@@ -427,7 +427,9 @@ def array_indices_for_world_objects(wcs, axes=None):
         # to the relevant world coordinate object.
         pixel_index = world_axis_to_pixel_axes(world_index, wcs.axis_correlation_matrix)
         array_index = convert_between_array_and_pixel_axes(pixel_index, wcs.pixel_n_dim)
-        array_indices[oinds] = tuple(array_index[::-1])  # Invert from pixel order to array order
+        # The components of one object need not depend on the same axes (e.g. a meshed
+        # SkyCoord table): the object's axes are those of all its components, in array order.
+        array_indices[oinds] = tuple(sorted(set(array_indices[oinds]).union(int(i) for i in array_index)))
     return tuple(ai for ai in array_indices if ai)
 
 
